@@ -922,6 +922,14 @@ def replay(ctx, rep):
     """re-run the recorded program on the current tree and compare with the recorded oracle answer"""
     common.standard_prelude(ctx, model=False)
     prog = rep.get("program")
+    if rep.get("case", {}).get("op") == "api":
+        c = rep["case"]
+        r = common.run_harness(common.harness_bin("c08"), [{"vals": [c["a"], c["b"]], "pairs": [[0, 1]]}], timeout=20.0)
+        got = (r[0].get("res") or ["abort"])[0]
+        orc = rep.get("fraction_oracle") or []
+        bad = len(got.split(" ")) != 5 or any(w is not None and g != w for g, w in zip(got.split(" "), orc))
+        print(json.dumps({"api_case": c, "implementation": got, "fraction_oracle": orc, "still_failing": bad}))
+        return 1 if bad else 0
     if not prog:
         print(json.dumps({"replay": "nothing to run", "what": rep.get("what")}))
         return 1
